@@ -302,7 +302,28 @@ func isModuleFn(w *World, f *ssa.Function) bool {
 	return w.IsModule(f)
 }
 
+// boundTarget: f is the synthetic wrapper of a method value (x.m as a func
+// value: `m$bound` with the receiver as its only free variable); returns m.
+func boundTarget(f *ssa.Function) *ssa.Function {
+	if f == nil || !strings.HasPrefix(f.Synthetic, "bound method wrapper") || len(f.FreeVars) != 1 || len(f.Blocks) != 1 {
+		return nil
+	}
+	for _, in := range f.Blocks[0].Instrs {
+		if c, ok := in.(*ssa.Call); ok {
+			if g := c.Call.StaticCallee(); g != nil && len(c.Call.Args) == len(f.Params)+1 && c.Call.Args[0] == ssa.Value(f.FreeVars[0]) {
+				return g
+			}
+		}
+	}
+	return nil
+}
+
 func (e *FuncEnc) staticCall(in ssa.Instruction, f *ssa.Function, bindings []ssa.Value, argVals []ssa.Value, args []string, rts []types.Type, res ssa.Value) {
+	// a method value: the call is a call of the method on the bound receiver
+	if g := boundTarget(f); g != nil && len(bindings) == 1 {
+		e.staticCall(in, g, nil, append([]ssa.Value{bindings[0]}, argVals...), append([]string{e.v(bindings[0])}, args...), rts, res)
+		return
+	}
 	if bindings != nil {
 		// a closure may write the variable cells it captures
 		saved, savedOuter := e.noPreserve, e.noPreserveOuter
